@@ -431,6 +431,71 @@ def gen_constraint(cons: ast.AST) -> str:
     return "\n".join(out) + "\n"
 
 
+def gen_hook_shape(sc: ast.AST) -> str:
+    """the `warnings.showwarning` discipline of `solve_scipy` as a small program: which statements capture, install and
+    restore the hook, inside which part of the try / except / finally around the `minimize` call"""
+    fn = find_func(sc, "solve_scipy")
+    it = next((i for i, st in enumerate(fn.body) if isinstance(st, ast.Try)), None)
+    if it is None:
+        raise TranslateError("solve_scipy: no try statement")
+    tr = fn.body[it]
+    HOOK = "warnings.showwarning"
+    captured: list[str] = []
+
+    def mentions_hook(st) -> bool:
+        return any(isinstance(n, ast.Attribute) and _u(n) == HOOK for n in ast.walk(st))
+
+    def classify(st, allow_other_calls=False) -> str:
+        if isinstance(st, ast.Assign) and len(st.targets) == 1:
+            t, v = _u(st.targets[0]), _u(st.value)
+            if v == HOOK and isinstance(st.targets[0], ast.Name):
+                captured.append(t)
+                return "capture"
+            if t == HOOK:
+                return "restore" if v in captured else "install"
+            if isinstance(st.value, ast.Call) and _u(st.value.func) == "minimize":
+                return "solverCall"
+        if isinstance(st, ast.Return) and isinstance(st.value, ast.Call) and _u(st.value.func) == "Solution" \
+                and any(k.arg == "status" and _u(k.value) == "SolverStatus.FAILED" for k in st.value.keywords):
+            if any(isinstance(n, ast.Call) and _u(n.func) not in ("Solution", "str", "time.perf_counter") for n in ast.walk(st)):
+                raise TranslateError(f"solve_scipy: call inside the FAILED return {_u(st)[:80]!r}")
+            return "returnFailed"
+        if mentions_hook(st):
+            raise TranslateError(f"solve_scipy: statement touches warnings.showwarning in an unknown way: {_u(st)[:80]!r}")
+        if not allow_other_calls and any(isinstance(n, ast.Call) for n in ast.walk(st)):
+            raise TranslateError(f"solve_scipy: a call inside the try / except / finally that is not the solver call: {_u(st)[:80]!r}")
+        return "other"
+
+    pre = []
+    for st in fn.body[:it]:
+        if isinstance(st, (ast.FunctionDef,)):
+            continue
+        if mentions_hook(st):
+            pre.append(classify(st, allow_other_calls=True))
+    body = [classify(st) for st in tr.body if not (isinstance(st, ast.Expr) and isinstance(st.value, ast.Constant))]
+    handlers = []
+    for h in tr.handlers:
+        cls = _u(h.type) if h.type is not None else "BaseException"
+        handlers.append((cls, [classify(st) for st in h.body]))
+    if tr.orelse:
+        raise TranslateError("solve_scipy: try … else")
+    final = [classify(st) for st in tr.finalbody]
+    post_touch = [_u(st)[:60] for st in fn.body[it + 1:] if mentions_hook(st)]
+    if post_touch:
+        raise TranslateError(f"solve_scipy: warnings.showwarning is touched after the try statement: {post_touch}")
+    lst = lambda xs: "[" + ", ".join("." + x for x in xs) + "]"
+    out = ["/-- what a statement does to `warnings.showwarning` -/",
+           "inductive HStmtG | capture | install | solverCall | restore | returnFailed | other",
+           "  deriving DecidableEq, Repr",
+           "/-- the hook discipline of `solve_scipy`: statements touching the hook before the `try`, then the try body, the handlers",
+           "    (exception class, body) and the `finally` body -/",
+           f"def hookPreG : List HStmtG := {lst(pre)}",
+           f"def hookTryG : List HStmtG := {lst(body)}",
+           "def hookHandlersG : List (String × List HStmtG) := [" + ", ".join(f"({json.dumps(c)}, {lst(b)})" for c, b in handlers) + "]",
+           f"def hookFinallyG : List HStmtG := {lst(final)}"]
+    return "\n".join(out) + "\n"
+
+
 if __name__ == "__main__":
     import sys
     print(gen_scipy_post(ast.parse(open(sys.argv[1]).read())))
